@@ -3,7 +3,7 @@
 (* Every log node is one TLC state; the formulas below are evaluated on the recorded states.         *)
 (*   Conf_*  : the recorded step is exactly the step the specification's action takes                *)
 (*   C17_*   : the property, stated over the recorded record and the ghost window G                  *)
-EXTENDS Oracle, Limbs, TLC, Json, FiniteSets
+EXTENDS Band, Limbs, TLC, Json, FiniteSets
 CONSTANT LogFile
 Log == ndJsonDeserialize(LogFile)
 NLog == Len(Log)
@@ -15,6 +15,7 @@ Spec == Init /\ [][Next]_cur
 
 Rec(j) == [found |-> j.found, win |-> j.win, idx |-> j.idx, active |-> j.active, val |-> j.val, d |-> j.d]
 Nd(i) == Log[i]
+RecB(j) == [flag |-> j.flag, valid |-> j.valid, temp |-> j.temp, last |-> j.last, dh |-> j.dh, dbool |-> j.dbool, hasres |-> j.hasres, rate |-> j.rate]
 Pos(nd) == nd.args.rL # <<>>
 
 (* ghost window in limbs: positive samples since the last reset, last n kept *)
@@ -26,12 +27,20 @@ G(i) ==
            w == Age(Rec(nd.st.pre), nd.args.dh, nd.args.gap)
            n == nd.args.n
        IN IF nd.st.panic THEN g
+          ELSE IF nd.a = "Cycle" THEN
+               LET b1 == BandHook(Arrive(RecB(nd.st.preb), nd.args.kind, 1), nd.args.gap)
+                   g1 == IF b1.dbool THEN <<>> ELSE g
+                   w1 == IF b1.dbool THEN GlobalDiscard(w) ELSE w
+                   base == IF w1.found /\ Pos(nd) /\ w1.d > 0 /\ w1.d >= nd.args.gap THEN <<>> ELSE g1
+               IN IF ~b1.valid THEN g
+                  ELSE IF b1.hasres /\ Pos(nd) THEN LastN(Append(base, nd.args.rL), n)
+                  ELSE IF b1.hasres THEN base ELSE g1
           ELSE IF nd.a = "GlobalDiscard" THEN <<>>
           ELSE IF nd.a = "Invalidate" THEN g
           ELSE LET base == IF w.found /\ Pos(nd) /\ w.d > 0 /\ w.d >= nd.args.gap THEN <<>> ELSE g
                IN IF Pos(nd) THEN LastN(Append(base, nd.args.rL), n) ELSE base
 
-InRun(nd) == nd.run # "vec"
+InRun(nd) == nd.run \notin {"vec", "bandvec"}
 
 (* ---------------- conformance: code step = spec step (small values only) ---------------- *)
 SmallStep(nd) == nd.st.pre.small /\ nd.st.w.small /\ nd.args.r >= 0
@@ -47,6 +56,16 @@ ConfDiscard(nd) ==
   nd.a = "GlobalDiscard" /\ SmallStep(nd) /\ ~nd.st.panic =>
      Rec(nd.st.w) = GlobalDiscard(Age(Rec(nd.st.pre), nd.args.dh, nd.args.gap))
 
+(* one cadence block = band hook ; market hook (Band.tla) *)
+ConfCycle(nd) ==
+  nd.a = "Cycle" /\ SmallStep(nd) /\ ~nd.st.panic =>
+     LET bb == [RecB(nd.st.preb) EXCEPT !.rate = nd.args.r]   \* args.r = the rate stored for THIS asset in the result the hook will read
+         c == Cycle(bb, Rec(nd.st.pre), nd.args.kind, nd.args.r, nd.args.n, nd.args.gap)
+         pb == nd.st.b
+     IN /\ ~c.panic
+        /\ Rec(nd.st.w) = c.w
+        /\ <<pb.flag, pb.valid, pb.temp, pb.last, pb.dh, pb.dbool, pb.hasres>> = <<c.b.flag, c.b.valid, c.b.temp, c.b.last, c.b.dh, c.b.dbool, c.b.hasres>>
+
 (* ---------------- C17 on recorded behaviours ---------------- *)
 C17NoPanic(nd)   == ~nd.st.panic
 C17OnlyFull(i)   == LET nd == Nd(i) IN InRun(nd) /\ nd.st.w.active => Len(G(i)) >= nd.args.n
@@ -55,16 +74,17 @@ C17MeanExact(i)  == LET nd == Nd(i) g == G(i) n == nd.args.n IN
                        LEq(nd.st.w.valL, LDivSmall(LSumSeq(g), n))
 C17InWindow(nd)  == nd.st.w.idx <= Len(nd.st.w.winL)
                     /\ (nd.st.w.active => Len(nd.st.w.winL) >= nd.args.n /\ nd.st.w.idx < nd.args.n)
-C17ZeroOff(nd)   == nd.a = "Sample" /\ ~Pos(nd) /\ nd.st.w.found /\ ~nd.st.panic => ~nd.st.w.active
+C17ZeroOff(nd)   == (nd.a = "Sample" \/ (nd.a = "Cycle" /\ nd.st.b.hasres /\ nd.st.b.valid)) /\ ~Pos(nd) /\ nd.st.w.found /\ ~nd.st.panic => ~nd.st.w.active
 C17Consumer(nd)  == (~nd.st.w.active => nd.st.calcErr /\ nd.st.getErr) /\ (nd.st.w.active /\ ~nd.st.panic => ~nd.st.calcErr)
 
-Formulas == <<"Conf_Sample", "Conf_Invalidate", "Conf_GlobalDiscard", "C17_NoPanic", "C17_OnlyFull",
+Formulas == <<"Conf_Sample", "Conf_Invalidate", "Conf_GlobalDiscard", "Conf_Cycle", "C17_NoPanic", "C17_OnlyFull",
               "C17_MeanExact", "C17_InWindow", "C17_ZeroOff", "C17_Consumer">>
 Holds(f, i) ==
   LET nd == Nd(i) IN
   CASE f = "Conf_Sample" -> ConfSample(nd)
     [] f = "Conf_Invalidate" -> ConfInvalidate(nd)
     [] f = "Conf_GlobalDiscard" -> ConfDiscard(nd)
+    [] f = "Conf_Cycle" -> ConfCycle(nd)
     [] f = "C17_NoPanic" -> C17NoPanic(nd)
     [] f = "C17_OnlyFull" -> C17OnlyFull(i)
     [] f = "C17_MeanExact" -> C17MeanExact(i)
@@ -79,6 +99,8 @@ Stats == PrintT(<<"STATS", [nodes |-> NLog,
            active |-> Cardinality({i \in 1..NLog : Nd(i).st.w.active}),
            meanChecked |-> Cardinality({i \in 1..NLog : InRun(Nd(i)) /\ Nd(i).st.w.active}),
            zeroSamples |-> Cardinality({i \in 1..NLog : Nd(i).a = "Sample" /\ ~Pos(Nd(i))}),
+           cycles |-> Cardinality({i \in 1..NLog : Nd(i).a = "Cycle"}),
+           discards |-> Cardinality({i \in 1..NLog : Nd(i).a = "Cycle" /\ BandHook(Arrive(RecB(Nd(i).st.preb), Nd(i).args.kind, 1), Nd(i).args.gap).dbool}),
            bigValues |-> Cardinality({i \in 1..NLog : ~Nd(i).st.w.small}),
            confChecked |-> Cardinality({i \in 1..NLog : SmallStep(Nd(i))}) ]>>)
 AllSeen == Stats /\ TLCGet("stats").distinct = NLog
